@@ -420,7 +420,7 @@ K("C13/chain/equality", ["C13"], "chain::verif_kani_c::c13_chain_equality_v2", [
   bounded="move lists of length <= 3 (std iterator zip/all; everything else unbounded)", timeout=3000, mem_gb=16)
 K("C17/walker/op-sequences", ["C17"], CH + "c17_walker_op_sequences_fixed_game", ["Walker::next", "Walker::prev", "Walker::start", "Walker::end", "Walker::set_board_pos", "BaseMoveChain::walk", "BaseMoveChain::push"],
   "for one fixed 4-ply game and EVERY sequence of 5 operations from {next, prev, start, end}: each returned move comes with exactly the position that preceded it (raw fields, hash, combined occupancy), None exactly at the ends, and the chain is untouched (real make/unmake code)",
-  bounded="one fixed game of 4 plies, operation sequences of length 5", timeout=3600, mem_gb=20)
+  bounded="one fixed game of 4 plies, operation sequences of length 5", timeout=7200, mem_gb=30, mem_est=18, tier="thorough")
 
 # ---------------------------------------------------------------------------------------------
 # C19: unsafe-site map (lib/unsafe_map.py) + every obligation that executes / justifies a site
@@ -449,7 +449,7 @@ K("C17/styled/empty-chain", ["C17"], "chain::verif_kani_c::c17_styled_list_empty
   "for the chain without moves and every number policy (incl. all 65536 custom numbers), move style, status policy and stored outcome: the styled text is exactly the status token of the STORED outcome (or nothing when hidden); the UCI list is empty", timeout=2400)
 K("C17/lists/fixed-game", ["C17"], CH + "c17_lists_fixed_game", ["<StyledList as Display>::fmt", "<UciList as Display>::fmt", "BaseMoveChain::from_uci_list", "BaseMoveChain::push_uci_list"],
   "for one fixed 3-ply game starting with Black to move and every number policy (Omit / FromBoard / Custom n), status policy and stored outcome: the SAN list is 'N... e5 N+1. Nf3 Nc6 [status]' with numbers continuing from the start position's (or the custom) number; the UCI list is the moves in order joined by single spaces, and replaying it rebuilds an equal chain",
-  bounded="one fixed game; SAN style only; custom start numbers < 256", timeout=5400, mem_gb=24, mem_est=8)
+  bounded="one fixed game; SAN style only; custom start numbers < 256", timeout=7200, mem_gb=30, mem_est=18, tier="thorough")
 
 K("C07/has-legal-moves/small-boards", ["C07"], "movegen::verif_kani_b::c07_has_legal_moves_small_boards", ["movegen::has_legal_moves", "Board::has_legal_moves"],
   "for every valid position with at most three men: has_legal_moves() == the legal move list is non-empty (real glue: ErrOnFirst, LegalFilter, side dispatch)",
@@ -504,6 +504,13 @@ N("C08/record/tail-texts", ["C08", "C12"], "board::verif_kani_f::n08_record_tail
 N("C12/fen/board-field-texts", ["C12", "C08"], "board::verif_kani_f::n12_board_field_text_grammar", ["<RawBoard as FromStr>::from_str", "board::parse_cells", "board::format_cells"],
   "for every record whose board field has 1..10 ranks, all '8' except two positions taking every pair of 18 rank tokens (too long, too short, bad characters, empty, '.', nine squares), with three different tails: parsing never panics, and accepted text is stable under parse-format-parse",
   bounded="board fields built from the token grammar listed in kani/board_harness_f.rs (about 50 000 texts)", timeout=1800)
+
+N("C17/walker/op-sequences-native", ["C17"], "chain::verif_kani_d::n17_walker_all_op_sequences", ["Walker::next", "Walker::prev", "Walker::start", "Walker::end", "Walker::set_board_pos", "BaseMoveChain::walk", "BaseMoveChain::push"],
+  "for six fixed games (White and Black to move first, both castlings, en passant, capture-promotion, move number 65534) and EVERY sequence of <= 7 operations from {next, prev, start, end}: each returned move comes with exactly the position that preceded it (whole Board, replayed independently of the chain), None exactly at the ends, pos()/len() right, the chain equal to its snapshot afterwards",
+  bounded="six fixed games of <= 6 plies, operation sequences of length <= 7 (the unbounded statement is C17/walker/verus)", timeout=1800)
+N("C17/lists/policies-native", ["C17"], "chain::verif_kani_d::n17_lists_all_policies", ["<StyledList as Display>::fmt", "<UciList as Display>::fmt", "BaseMoveChain::from_uci_list", "BaseMoveChain::push_uci_list", "BaseMoveChain::styled", "BaseMoveChain::uci"],
+  "for the same six games x 5 stored outcomes x number policies (Omit, FromBoard, Custom 0..299 and five large values) x 3 move styles x 2 status policies: the styled list is the moves in game order in the requested notation, a number before every White move and 'N...' before a Black first move continuing from the start position's number or the custom one, single spaces, and the status token of the STORED outcome; the UCI list is the moves joined by single spaces and replaying it from the start rebuilds an equal chain",
+  bounded="six fixed games; custom start numbers 0..299, 999, 1000, 65535, 65536, 2^40", timeout=1800)
 
 K("C12/san/from-str-4", ["C12", "C09", "C02"], "moves::san::verif_kani_d::c12_san_from_str_total_len4", ["<san::Move as FromStr>::from_str", "<san::Data as FromStr>::from_str"],
   "for all UTF-8 strings of <= 4 bytes (this contains every input of defect D2: \"N\", \"R+\", \"Kx\", \"\\u{20ac}\", \"N\\u{e9}4\"): SAN parsing returns a value or an error, never panics",
